@@ -147,6 +147,13 @@ class C16(Check):
         self.w1 = G.V1World("c16")
         self.w2 = G.V2World("c16")
         self.nmax = 5 if self.thorough else 4
+        # does the code under test read a clock the harness owns?  If not, every validity period is
+        # generated around the real present (see CertImpl.settle_clock)
+        G.set_reference_instant(G.T0_FIXED)
+        doc, pem, _ = self.w2.chain(2, "wide-top")
+        if not self.impl.settle_clock(doc, pem, G.T0):
+            G.set_reference_instant(self.impl.fresh_reference_instant())
+            self.w2 = G.V2World("c16")
         self.root1 = self.w1.pub("root").hex()
         self.root2 = G.pem_of(self.w2.cert("root", "root", G.T0 - 4000 * DAY, G.T0 + 4000 * DAY))
         self._c = {}
@@ -154,7 +161,8 @@ class C16(Check):
         self.hangs = multiprocessing.get_context("fork").Value("i", 0)
 
     def bounds(self):
-        return {"max_elements_all_functions": self.nmax, "rule_built_elements": 12,
+        return {"clock": "owned" if self.impl.owned else "not owned: validity periods around the real present",
+                "max_elements_all_functions": self.nmax, "rule_built_elements": 12,
                 "step_budget_lines": 40000, "wall_backstop_s": 30}
 
     def alphabets(self):
@@ -557,7 +565,8 @@ class C16(Check):
         docs = [("v1-base", self.base_doc(1)), ("v2-base", self.base_doc(2))]
         picked = [d for d in self.named_docs() if d[0].startswith("names:v2:target")]
         docs += [("name-%d" % i, d) for i, (_, d) in enumerate(picked)]
-        man = {"root1": self.root1, "root2": self.root2, "docs": []}
+        man = {"root1": self.root1, "root2": self.root2, "docs": [], "owned": self.impl.owned,
+               "t0": G.T0.strftime("%Y-%m-%dT%H:%M:%S")}
         for did, d in docs:
             path = self.impl.path("ascii-" + did)
             with open(path, "w", encoding="ascii") as f:
